@@ -1416,8 +1416,9 @@ func (stmt *UpsertIntoStmt) execAt(ctx context.Context, tx *SQLTx, params map[st
 					}
 					if !defVal.IsNull() {
 						valuesByColID[colID] = defVal
+						continue
 					}
-					continue
+					// a default that evaluates to NULL is handled as no value at all
 				}
 
 				if col.notNull && !col.autoIncrement {
